@@ -349,10 +349,26 @@ CHECKS = {
        "the storage layer (a crashfs hook starts late committers before the Flush / after the Sync of every log of the round, MaxIOConcurrency 1..3); the crash point right "
        "after every acknowledgement is always evaluated (values of every acked tx read back); a crash-independent ordering oracle on the trace checks that the tx record and "
        "every referenced value range are fsynced when a commit-log entry becomes durable / a commit is acknowledged; the trace is fed to the model with the round's begin at "
-       "its real position, so a precommit inside a round is answered 'disabled' by the model.",
+       "its real position, so a precommit inside a round is answered 'disabled' by the model. "
+       "INDEX recovery (tbtree OpenWith): Lean model of the backwards walk over the index commit log (IndexRecover.walk, per entry: synced flag + outcome of the "
+       "checksum validation) and of the three index logs under flushTree micro-steps with crash images and restarts (IndexStore: incremental snapshots = node range "
+       "+ history range + commit entry, ideal checksums). For EVERY entry list: index_walk_keeps_fsynced, index_walk_kept_valid (an invalid snapshot invalidates every "
+       "newer one: the kept entries above the newest valid fsynced one form a valid prefix), index_walk_maximal (the longest one); index_recover_kept_validate (on every "
+       "image the kept snapshots have their own ranges on disk); index_recover_one_life_partial (one life, every crash image: the selected snapshot is a snapshot of the "
+       "flush history, the kept commit log a prefix of the logical one, both data logs below its ends unchanged: no lost data referenced); witnesses "
+       "index_keep_newest_references_lost_data (keeping the newest valid snapshot above an invalid one loads a root over stale history: seeded change c03-d), "
+       "index_stale_entry_revalidates and index_spliced_entry_validates (findings 6 and 5: the full multi-life statement is FALSE of the code). Tie: for every opened "
+       "image the harness validates the index commit entries itself and `c03 idxwalk` must select the number of snapshots the real OpenWith selected (read off its "
+       "SetOffset ops). Enumeration: per index LOG survival choices (one log loses all / keeps all alone / keeps a proper prefix, independent random prefixes, torn), "
+       "index-flush-heavy workloads (several un-fsynced snapshots with and without history append between fsyncs, secondary indexes), trees of lives of one directory "
+       "with up to 3 crashes (the next life starts from a crash image with long stale tails), TIMESTAMP side files tracked. Oracle on every index: Get, History (both "
+       "directions, tx ids, revisions, values resolved) of every key and a full history scan = comprehension of the recovered tx log (the reference of C04).",
   note=TB + " Modelled rather than verified: ideal (injective) Alh, one cell per record (byte-level tearing only as 'torn cell'), the two volatile levels "
-       "(buffered / written) merged, committers serialised in the model, hash tree (aht) and index (tbtree) recovery are NOT in the Lean model (covered by the "
-       "crash-image enumeration + oracle only: that is where 3 of the 4 findings are), preallocated files and compressed value logs not covered, "
+       "(buffered / written) merged, committers serialised in the model, hash tree (aht) recovery is NOT in the Lean model (covered by the "
+       "crash-image enumeration + oracle only); index model: one cell per node / history record / commit entry, ideal checksums, a torn commit entry never validates "
+       "(false of the code: finding 5, shown separately), one chunk per log, no compaction / DiscardUpto, the content of nodes (B-tree structure, ts) is not modelled: "
+       "'consistent' = the logs below the ends of the snapshot hold what they held when it was written; the multi-life theorem is stated _partial (one life) because the "
+       "full statement is false (findings 5, 6); the TIMESTAMP file (finding 7) is outside the Lean model. Preallocated files and compressed value logs not covered, "
        "fsync assumed to reach the platter. acked_values is proved for one epoch only (false across restarts: K7).",
   technique="Lean 4 proof (invariant over micro-step sequences and crash images) + crash-image enumeration of the real store on an in-memory Appendable + trace correspondence",
   design="7/C03"),
